@@ -267,7 +267,7 @@ var hiddenVar = "hv"
 // layout family (IR): imports needed only by one part of the output, several injectors in several files, doc comments.
 func c01LayoutCases() []*h.Case {
 	var out []*h.Case
-	for variant := 0; variant < 10; variant++ {
+	for variant := 0; variant < 12; variant++ {
 		b := ir.NewBuilder()
 		p := b.Root
 		la := &ir.Pkg{Name: "cfg", Rel: "alpha/cfg"}
@@ -293,6 +293,20 @@ func c01LayoutCases() []*h.Case {
 			injs = []*ir.Injector{mk("InitA", "wire.go", "// InitA builds a T.\n// Second line."), mk("InitB", "wire.go", ""), mk("InitC", "wire_more.go", "/* block doc */")}
 		case 5: // same-named packages, one only in a parameter and one only in the result
 			injs = []*ir.Injector{{Name: "Init", Params: []ir.Param{{Name: "cfg", T: ta}}, Out: tb, Items: []*ir.Item{ir.FuncItem(&ir.Func{Pkg: lb, Name: "New", Params: []*ir.Type{ta}, Out: tb})}}}
+		case 10: // two injectors, each with its own value of one and the same type (and one shared)
+			v := b.Leaf(p, "Config")
+			shared := ir.ValueItem(r, 9003)
+			mk := func(name string, id int) *ir.Injector {
+				out := b.Leaf(p, "Out"+name)
+				return &ir.Injector{Name: name, Out: out, Items: []*ir.Item{ir.ValueItem(v, id), shared, ir.FuncItem(&ir.Func{Pkg: p, Name: "P" + name, Params: []*ir.Type{v, r}, Out: out})}}
+			}
+			injs = []*ir.Injector{mk("InitServer", 9001), mk("InitClient", 9002)}
+		case 11: // the first injector file has one injector, the second two injectors and helper declarations
+			newA := &ir.Func{Pkg: la, Name: "New", Out: ta}
+			mk := func(name, file, after string) *ir.Injector {
+				return &ir.Injector{Name: name, File: file, After: after, Out: ta, Items: []*ir.Item{ir.FuncItem(newA)}}
+			}
+			injs = []*ir.Injector{mk("InitA", "wire.go", ""), mk("InitB", "wire_more.go", "type options struct{ N int }\n\nfunc defaultOptions() options { return options{N: 1} }"), mk("InitC", "wire_more.go", "var lateHelper = defaultOptions().N")}
 		case 7, 8, 9: // blank / unnamed / mixed parameters that providers consume
 			u := b.Leaf(p, "U")
 			names := [][2]string{{"_", "_"}, {"-", "-"}, {"_", "named"}}[variant-7]
